@@ -77,6 +77,14 @@ def tier_harnesses(unit, tier):
     return [h for h in unit.harnesses if tier == "thorough" or h.tier == "quick"]
 
 
+def V_errors(raw):
+    """the compiler / verifier error messages of a Verus run, without the JSON tail"""
+    i = raw.find("{\n")
+    head = raw[:i] if i > 0 else raw
+    errs = [m.group(0) for m in re.finditer(r"^error[^\n]*\n(?:[^\n]*\n){0,6}", head, re.M)]
+    return "\n".join(errs) if errs else head[-1500:]
+
+
 def main(argv=None):
     ap = argparse.ArgumentParser()
     ap.add_argument("prop")
@@ -102,6 +110,7 @@ def main(argv=None):
     known = load_known()
     harness_reports, verus_reports, cmds = [], [], []
     undecided, violations, known_hits = [], [], []
+    fallback_lines = []     # violations shown by the bounded replay stand-in of a unit the verifier could not process
     resource_limited = []   # timeouts / solver memory limits: recorded in the evidence, never an alarm and never a failure of the check
     trusted_paths = []
     fns_under_contract = []
@@ -176,6 +185,10 @@ def main(argv=None):
                 except Undecided as e:
                     # this unit cannot be assembled from the changed text (lost anchor / rewrite no longer matching): the
                     # unit is undecided; the other units of the property are still run and may decide
+                    import replay as R
+                    line = R.fallback_on_undecided(prop, scratch, vu, e)
+                    if line:
+                        fallback_lines.append(line)
                     undecided.append("verus %s: %s" % (vu.name, e))
                     verus_reports.append(dict(unit=vu.name, status="not-assembled", verified=0, errors=0, smt_s=None, wall_s=0.0, obligation=vu.obligation,
                                               functions=vu.fns, extracted=[], file="", backend="verus 0.2026.09.13 / z3", failures=[], failed_functions=[]))
@@ -212,10 +225,14 @@ def main(argv=None):
                 elif res["status"] == "timeout":
                     resource_limited.append("verus %s: timeout" % vu.name)
                 else:
-                    undecided.append("verus %s: %s %s" % (vu.name, res["status"], res["raw"][-600:]))
+                    import replay as R
+                    line = R.fallback_on_undecided(prop, scratch, vu, V_errors(res["raw"])) if res["status"] == "error" else None
+                    if line:
+                        fallback_lines.append(line)
+                    undecided.append("verus %s: %s %s" % (vu.name, res["status"], V_errors(res["raw"])[-600:]))
 
             # ------------------------------------------------------------------ violations: replay
-            viol_lines = []
+            viol_lines = list(fallback_lines)
             if violations:
                 import replay as R
                 for n, v in enumerate(violations):
@@ -226,7 +243,7 @@ def main(argv=None):
                         undecided.append(line)
     except Undecided as e:
         undecided.append(str(e))
-        viol_lines = []
+        viol_lines = list(fallback_lines)
 
     # ---------------------------------------------------------------------- evidence
     kani_checks = sum(h["checks"] for h in harness_reports)
